@@ -4,6 +4,9 @@ import (
 	"bytes"
 	"fmt"
 	"io"
+	"os"
+	"os/exec"
+	"path/filepath"
 	"strings"
 
 	"github.com/zerx-lab/wordZero/pkg/document"
@@ -157,5 +160,66 @@ func renderSiblingsCase(c *core.Ctx, rules func(*opc.Package) []opc.Problem, wei
 	res.Nontrivial = res.Stats["parts_parsed"] > 0 && rounds > 0
 	res.Sig = "siblings:" + strings.Join(sig, "|")
 	res.Sample = map[string]interface{}{"case": c.Case, "renders": n, "base_ops": tail(base.Log, 12), "render0_ops": tail(scripts[0].Log, 8), "render1_ops": tail(scripts[1].Log, 8)}
+	return res
+}
+
+// repoProgramsCase runs the repository's own programs - its test suite and every example under examples/ - in a
+// scratch copy of the tree under test (outside /repo and /verif, removed afterwards) and applies the package rules to
+// every .docx they leave behind: an offline check of the event log "packages the library wrote for realistic callers".
+func repoProgramsCase(c *core.Ctx, rules func(*opc.Package) []opc.Problem) *core.Result {
+	res := &core.Result{}
+	src := os.Getenv("VERIF_REPO_DIR")
+	if src == "" {
+		src = "/repo"
+	}
+	scratch := fmt.Sprintf("/var/tmp/vf-progs-%d-%d", os.Getpid(), c.Case)
+	os.RemoveAll(scratch)
+	defer os.RemoveAll(scratch)
+	if out, err := exec.Command("rsync", "-a", "--exclude", ".git", "--exclude", "*.docx", src+"/", scratch+"/").CombinedOutput(); err != nil {
+		res.Inconcl = "cannot copy the tree: " + err.Error() + " " + lastStr(string(out), 200)
+		return res
+	}
+	env := append(os.Environ(), "GOFLAGS=-mod=mod", "GOPROXY=off", "GOSUMDB=off", "GOTOOLCHAIN=local")
+	run := func(dir string, timeout string, args ...string) {
+		cmd := exec.Command("timeout", append([]string{"-s", "KILL", timeout}, args...)...)
+		cmd.Dir = dir
+		cmd.Env = env
+		cmd.Run()
+	}
+	run(scratch, "600", "go", "test", "-vet=off", "-count=1", "./pkg/...", "./test/...")
+	res.Count("repo_test_suite_runs", 1)
+	ex, _ := os.ReadDir(filepath.Join(scratch, "examples"))
+	for _, e := range ex {
+		if e.IsDir() {
+			run(filepath.Join(scratch, "examples", e.Name()), "120", "go", "run", ".")
+			res.Count("repo_example_programs_run", 1)
+		}
+	}
+	filepath.Walk(scratch, func(path string, info os.FileInfo, err error) error {
+		if err != nil || info.IsDir() || !strings.HasSuffix(strings.ToLower(path), ".docx") {
+			return nil
+		}
+		b, rerr := os.ReadFile(path)
+		if rerr != nil || len(b) == 0 {
+			return nil
+		}
+		p := opc.Read(b)
+		if len(p.ZipProbs) > 0 && len(p.Parts) == 0 {
+			res.Count("repo_program_outputs_not_zip(skipped)", 1) // test fixtures for error paths
+			return nil
+		}
+		probs := rules(p)
+		for i := range probs {
+			probs[i].Key += "/repo-programs"
+		}
+		rel, _ := filepath.Rel(scratch, path)
+		addProblems(res, probs, "written by the repository's own program: "+rel)
+		statsOf(res, p)
+		res.Count("repo_program_packages_checked", 1)
+		return nil
+	})
+	res.Nontrivial = res.Stats["repo_program_packages_checked"] > 0
+	res.Sig = "repo-programs"
+	res.Sample = map[string]interface{}{"case": c.Case, "kind": "packages written by the repository's tests and examples", "packages": res.Stats["repo_program_packages_checked"]}
 	return res
 }
